@@ -804,6 +804,49 @@ pub fn run_prop<P: Prop>(prop: P, opts: &Opts) -> ! {
         }
     }
 
+    // ---------------- second build profile (same check, binary built without overflow checks / debug assertions)
+    let mut second: Option<serde_json::Value> = None;
+    if violations.is_empty() && missing.is_empty() {
+        if let Ok(bin) = std::env::var("VERIF_SECOND_BIN") {
+            if !bin.is_empty() && std::path::Path::new(&bin).exists() {
+                let out = std::process::Command::new(&bin)
+                    .arg(id)
+                    .args(["--tier", opts.tier.name(), "--seed", &(opts.seed as i128).to_string(), "--jobs", &opts.jobs.to_string(), "--no-evidence"])
+                    .args(opts.cases_override.map(|c| vec!["--cases".to_string(), c.to_string()]).unwrap_or_default())
+                    .env_remove("VERIF_SECOND_BIN")
+                    .output();
+                match out {
+                    Err(e) => {
+                        println!("INCONCLUSIVE: cannot run {bin}: {e}");
+                        std::process::exit(2);
+                    }
+                    Ok(o) => {
+                        let text = String::from_utf8_lossy(&o.stdout).to_string();
+                        let code = o.status.code().unwrap_or(2);
+                        if code != 0 {
+                            println!("--- build without overflow checks / debug assertions ({bin}):");
+                            for l in text.lines().filter(|l| !l.starts_with("labels:")) {
+                                println!("{l}");
+                            }
+                            std::process::exit(if code == 1 { 1 } else { 2 });
+                        }
+                        let evals = text
+                            .lines()
+                            .find(|l| l.starts_with(id) && l.contains("evaluations="))
+                            .and_then(|l| l.split("evaluations=").nth(1))
+                            .and_then(|r| r.split(' ').next())
+                            .and_then(|n| n.parse::<u64>().ok())
+                            .unwrap_or(0);
+                        for l in text.lines().filter(|l| l.starts_with("KNOWN-FINDING")) {
+                            let _ = l; // already reported by the first build
+                        }
+                        second = Some(serde_json::json!({"profile": "opt-level 3, overflow-checks off, debug-assertions off", "evaluations": evals, "violations": 0}));
+                    }
+                }
+            }
+        }
+    }
+
     // ---------------- evidence
     let wall = t0.elapsed().as_secs_f64();
     let mut samples: Vec<serde_json::Value> = Vec::new();
@@ -841,6 +884,9 @@ pub fn run_prop<P: Prop>(prop: P, opts: &Opts) -> ! {
         cov.insert("exhaustive".into(), any_exhaustive.into());
     }
     cov.insert("workers".into(), jobs.into());
+    if let Some(sec) = second {
+        cov.insert("second_build_profile".into(), sec);
+    }
     for (k, v) in prop.extra_coverage(opts.tier) {
         cov.insert(k, v);
     }
